@@ -94,6 +94,9 @@ func buildDOM(t *selTree) []*html.Node {
 		case "text":
 			n.Type = html.TextNode
 			n.Data = "some text"
+			if i%2 == 1 {
+				n.Data = "\u00a0" // (a no-break space is not document white space: the text is not blank)
+			}
 			if t.Blank[i] {
 				n.Data = " \n\t "
 			}
